@@ -201,7 +201,8 @@ def gen_column_request(rng, kind=None, self_=None):
         b = list(a)
     else:
         b = [perturb(rng, x, special) for x in a]
-    p, p2 = rand_tol(rng, True), rand_tol(rng, True)
+    # NaN tolerances are outside the theorems' hypotheses (tolerances are numbers)
+    p, p2 = rand_tol(rng, False), rand_tol(rng, False)
     return {"kind": kind, "p": p, "p2": p2, "a": a, "b": b}
 
 
@@ -235,7 +236,7 @@ def gen_area_request(rng):
         vb = list(va) if rng.random() < 0.3 else [perturb(rng, x, special, False) for x in va]
     else:
         vb = [rand_value(rng, special, False) for _ in tb]
-    return {"kind": "area", "interp": rng.choice(["none", "linear"]), "p": rand_tol(rng, True),
+    return {"kind": "area", "interp": rng.choice(["none", "linear"]), "p": rand_tol(rng, False),
             "ta": ta, "va": va, "tb": tb, "vb": vb}
 
 
@@ -273,7 +274,6 @@ def fixed_requests():
         R.append({"kind": kind, "p": 0.25, "p2": 0.5, "a": [3.0], "b": [2.0]})              # mixed err == 0
         R.append({"kind": kind, "p": 0.25, "p2": 0.5, "a": [-3.0], "b": [-2.0]})
         R.append({"kind": kind, "p": 0.0, "p2": 0.0, "a": [0.0, -5.5, 1e300], "b": [0.0, -5.5, 1e300]})
-        R.append({"kind": kind, "p": NAN, "p2": NAN, "a": [1.0, 2.0], "b": [5.0, 6.0]})
     R.append({"kind": "area", "interp": "none", "p": 0.1, "ta": [0.0, 1.0, 2.0], "va": [1.0, 2.0, 3.0],
               "tb": [0.0, 1.0, 2.0], "vb": [1.0, 2.0, 3.0]})
     R.append({"kind": "area", "interp": "linear", "p": 0.0, "ta": [0.0, 1.0, 1.0, 2.0], "va": [0.0, 0.0, -0.0, 0.0],
@@ -462,7 +462,7 @@ def run(ck):
         "classes compiled from the current tree (tolerance-free comparison of verdicts and failed-line counts)",
         "theorems are over Ext K (finite | +inf | -inf | NaN over an ordered field): finite values are exact (no rounding, "
         "single zero); the Float runs cover rounding and signed zeros by correspondence only",
-        "tolerances of the *_sound theorems are finite numbers; MTest eps is not NaN",
+        "tolerances are finite numbers (theorems *_sound and generator; nan_never_passes holds for every tolerance)",
         "Area: spline interpolations are not modelled (none and linear are); curves are read from files whose abscissa "
         "column is NaN-free; theorems about the area value assume a common sorted grid (documented precondition)",
         "columns reach the classes through text files (TextData/convert<double>) as in tfel-check; denormal inputs are not generated",
